@@ -39,17 +39,21 @@ def _rows(chain, cls):
 
 
 Q = [dict(cls="gibbs", d=1, retries=2), dict(cls="gibbs", d=2, retries=1), dict(cls="metropolis", d=2, retries=1),
-     dict(cls="pca", d=2, retries=1), dict(cls="hmc", d=1, retries=1), dict(cls="hmc", d=2, retries=0)]
+     dict(cls="pca", d=2, retries=1), dict(cls="hmc", d=1, retries=1), dict(cls="hmc", d=2, retries=0),
+     dict(cls="pca", d=2, retries=1, bounded=True), dict(cls="hmc", d=1, retries=1, bounded=True), dict(cls="gibbs", d=1, retries=2, bounded=True)]
 T = [dict(cls="gibbs", d=3, retries=1), dict(cls="gibbs", d=2, retries=2), dict(cls="metropolis", d=3, retries=2), dict(cls="pca", d=2, retries=2)]
 
 
-def _build(h, cls, d, ev, hist, retries):
+def _build(h, cls, d, ev, hist, retries, bounds=None):
     if cls in ("gibbs", "metropolis"):
         gb, chain, post, T_, pts = mc.make_metropolis_like(h, cls, d, ev, hist=hist, max_draws=retries + 1)
         h.covers(type(chain).take_step, gb.MetropolisChain.__init__, gb.Parameter.add_sample)
+        if bounds is not None:
+            for i in range(d):
+                chain.set_boundaries(i, (bounds[0][i], bounds[1][i]))
         return chain, post, 1 / T_, pts
     if cls == "pca":
-        pca, chain, post, T_, pts = mc.make_pca(h, d, ev, max_draws=2 * d * (retries + 1))
+        pca, chain, post, T_, pts = mc.make_pca(h, d, ev, max_draws=2 * d * (retries + 1), bounds=bounds)
         for k in range(1, hist):
             pt = h.real(f"s{k}", d)
             pts.append(pt)
@@ -59,7 +63,7 @@ def _build(h, cls, d, ev, hist, retries):
             chain.chain_length += 1
         h.covers(pca.PcaChain.take_step, pca.PcaChain.__init__)
         return chain, post, 1 / T_, pts
-    hmc, chain, post, grad, T_, start, eps, im = mc.make_hmc(h, d, ev, mass="scalar" if d == 1 else "vector", steps=1)
+    hmc, chain, post, grad, T_, start, eps, im = mc.make_hmc(h, d, ev, mass="scalar" if d == 1 else "vector", steps=1, bounds=bounds)
     chain.max_attempts = retries + 1
     pts = [start]
     for k in range(1, hist):
@@ -74,13 +78,17 @@ def _build(h, cls, d, ev, hist, retries):
 
 
 @unit("C03", quick=Q, thorough=T, max_paths=6000, cost=5)
-def constructor_and_step_preserve_invariant(h, cls, d, retries):
+def constructor_and_step_preserve_invariant(h, cls, d, retries, bounded=False):
     ev = mc.Events()
-    chain, post, beta, pts = _build(h, cls, d, ev, 1, retries)
+    bounds = None
+    if bounded:
+        lo = h.real("lo", d)
+        bounds = (lo, lo + h.real("wd", d, pos=True))
+    chain, post, beta, pts = _build(h, cls, d, ev, 1, retries, bounds=bounds)
     rcls = "hmc" if cls == "hmc" else "list"
     _inv_list_chain(h, "after construction", _rows(chain, rcls), chain.probs, chain.chain_length, post, beta)
-    # arbitrary second stored point satisfying I, then one real step
-    pt = h.real("s1", d)
+    # arbitrary second stored point satisfying I (inside the limits when there are limits), then one real step
+    pt = h.real("s1", d) if not bounded else bounds[0] + h.real("s1f", d, lo=0, hi=1) * (bounds[1] - bounds[0])
     if cls == "hmc":
         chain.theta.append(pt)
         chain.leapfrog_steps.append(1)
@@ -102,7 +110,7 @@ def constructor_and_step_preserve_invariant(h, cls, d, retries):
         h.eq(f"earlier log-probability {k} untouched", chain.probs[k], p)
 
 
-@unit("C03", quick=[dict(d=1, nw=3, k=1), dict(d=2, nw=3, k=1)], thorough=[dict(d=2, nw=4, k=1), dict(d=1, nw=3, k=2)], max_paths=8000, cost=7)
+@unit("C03", quick=[dict(d=1, nw=3, k=1), dict(d=2, nw=3, k=1)], thorough=[dict(d=2, nw=4, k=1), dict(d=1, nw=2, k=2)], max_paths=8000, cost=7)
 def ensemble_invariant(h, d, nw, k):
     ev = mc.Events()
     en, s, post, alpha, X = mc.make_ensemble(h, d, nw, ev, max_attempts=1)
